@@ -53,6 +53,12 @@ func newModel(thorough bool) *chainprop.Model {
 	m := &chainprop.Model{Menu: world.Menu()}
 	m.Std()
 	m.Scn, m.Opts, m.Prefix = m.Scn[1:], m.Opts[1:], m.Prefix[1:]
+	cn, co, cp := chainprop.CeremonyScenario()
+	m.Scn, m.Opts, m.Prefix = append(m.Scn, cn), append(m.Opts, co), append(m.Prefix, cp)
+	m.Acts = append(m.Acts,
+		m.FullCeremony("ceremony(all five answer)", []string{"V1", "V2", "N1", "C1", "G"}, []string{"good", "good", "mostly", "good", "mixed"}, []string{"V1", "V2", "N1", "G"}),
+		m.FullCeremony("ceremony(V2,N1,C1 answer)", []string{"V2", "N1", "C1"}, []string{"good", "good", "good"}, []string{"V2", "N1"}),
+	)
 	add := func(names ...string) { m.Acts = append(m.Acts, m.Drive(names...)) }
 	add("online V1", "online P")
 	add("online V2", "offline V1")
@@ -205,7 +211,7 @@ func main() {
 		return
 	}
 	run.SetBudget(5*60e9, 40*60e9)
-	depth := 4
+	depth := 3
 	if run.Thorough() {
 		depth = 5
 	}
